@@ -108,73 +108,103 @@ Proof. intros. apply lookup_In in H. apply in_map_iff. exists (n, e). auto. Qed.
 (* Commit                                                              *)
 (* ------------------------------------------------------------------ *)
 Local Arguments commit_one : simpl never.
-Lemma commit_one_frame : forall bad st ne,
-  nexte (commit_one bad st ne) = nexte st /\ mlock (commit_one bad st ne) = mlock st /\
-  clock (commit_one bad st ne) = clock st /\ txs (commit_one bad st ne) = txs st.
-Proof. intros bad st [n e]. unfold commit_one. destruct bad; simpl; auto. Qed.
-Lemma commit_all_frame : forall bad w st,
-  nexte (commit_all bad st w) = nexte st /\ mlock (commit_all bad st w) = mlock st /\
-  clock (commit_all bad st w) = clock st /\ txs (commit_all bad st w) = txs st.
+Lemma lookup_remove_if : forall n k e m x, lookup n (remove_if k e m) = Some x -> lookup n m = Some x.
+Proof.
+  intros n k e m x H. unfold remove_if in H. destruct (lookup k m) as [e'|]; auto.
+  destruct (Nat.eqb e' e); auto. now apply lookup_remove_some in H.
+Qed.
+
+Lemma commit_one_frame : forall safe bad st ne,
+  nexte (commit_one safe bad st ne) = nexte st /\ mlock (commit_one safe bad st ne) = mlock st /\
+  clock (commit_one safe bad st ne) = clock st /\ txs (commit_one safe bad st ne) = txs st.
+Proof.
+  intros safe bad st [n e]. unfold commit_one. destruct bad, safe; simpl; auto.
+  destruct (lookup n (mmap st)) as [cur|]; simpl; auto. destruct (Nat.eqb cur e); simpl; auto.
+Qed.
+Lemma commit_all_frame : forall safe bad w st,
+  nexte (commit_all safe bad st w) = nexte st /\ mlock (commit_all safe bad st w) = mlock st /\
+  clock (commit_all safe bad st w) = clock st /\ txs (commit_all safe bad st w) = txs st.
 Proof.
   unfold commit_all. induction w as [|ne w IH]; simpl; intros st; auto.
-  destruct (IH (commit_one bad st ne)) as (a & b & c & d).
-  destruct (commit_one_frame bad st ne) as (a' & b' & c' & d').
+  destruct (IH (commit_one safe bad st ne)) as (a & b & c & d).
+  destruct (commit_one_frame safe bad st ne) as (a' & b' & c' & d').
   repeat split; congruence.
 Qed.
 
-(* what Commit does to an element *)
-Definition commit_elem_rel (bad : bool) (touched : bool) (E E' : elem) : Prop :=
+(* what Commit does to an element: only the lock of the written elements is
+   opened; everything else it may change is `scrapped` (never reset) and the
+   storage version *)
+Definition same_shape (E E' : elem) : Prop :=
   e_name E' = e_name E /\ e_owner E' = e_owner E /\ e_readers E' = e_readers E /\ e_last E' = e_last E /\
-  (if touched then e_writer E' = None /\ e_wheld E' = false /\ e_scrapped E' = (bad || e_scrapped E)
-   else E' = E).
+  (e_scrapped E = true -> e_scrapped E' = true).
+Lemma same_shape_refl : forall E, same_shape E E.
+Proof. intros E. repeat split; auto. Qed.
+Lemma same_shape_trans : forall A B C, same_shape A B -> same_shape B C -> same_shape A C.
+Proof. intros A B C (a & b & c & d & e) (a' & b' & c' & d' & e'). repeat split; try congruence. auto. Qed.
 
-Lemma commit_all_elems : forall bad w st e,
-  (In e (map snd w) -> commit_elem_rel bad true (elems st e) (elems (commit_all bad st w) e)) /\
-  (~ In e (map snd w) -> elems (commit_all bad st w) e = elems st e).
+Lemma commit_one_elems : forall safe bad st n x y,
+  same_shape (elems st y) (elems (commit_one safe bad st (n, x)) y) /\
+  (y = x -> e_writer (elems (commit_one safe bad st (n, x)) y) = None /\
+            e_wheld (elems (commit_one safe bad st (n, x)) y) = false) /\
+  (y <> x -> e_writer (elems (commit_one safe bad st (n, x)) y) = e_writer (elems st y) /\
+             e_wheld (elems (commit_one safe bad st (n, x)) y) = e_wheld (elems st y)).
+Proof.
+  intros safe bad st n x y. unfold commit_one.
+  destruct bad; [|destruct safe; [destruct (lookup n (mmap st)) as [cur|]; [destruct (Nat.eqb_spec cur x)|]|]].
+  all: simpl; unfold upd.
+  all: repeat match goal with |- context [Nat.eqb ?a ?b] => destruct (Nat.eqb_spec a b); subst end.
+  all: simpl; unfold same_shape; simpl; repeat split; auto; try congruence; try tauto.
+Qed.
+
+Lemma commit_all_elems : forall safe bad w st e,
+  same_shape (elems st e) (elems (commit_all safe bad st w) e) /\
+  (In e (map snd w) -> e_writer (elems (commit_all safe bad st w) e) = None /\
+                       e_wheld (elems (commit_all safe bad st w) e) = false) /\
+  (~ In e (map snd w) -> e_writer (elems (commit_all safe bad st w) e) = e_writer (elems st e) /\
+                         e_wheld (elems (commit_all safe bad st w) e) = e_wheld (elems st e)).
 Proof.
   unfold commit_all. induction w as [|[n x] w IH]; simpl; intros st e.
-  - split; [tauto|auto].
-  - destruct (IH (commit_one bad st (n, x)) e) as [IH1 IH2].
-    assert (Hone : forall y, elems (commit_one bad st (n, x)) y =
-              if Nat.eqb y x then (if bad then e_set_writer (e_scrap (elems st x)) None false
-                                   else e_set_writer (e_set_built (elems st x) (S (committed st n))) None false)
-              else elems st y).
-    { intros y. unfold commit_one. destruct bad; simpl; unfold upd; destruct (Nat.eqb y x); auto. }
-    split.
-    + intros Hin. destruct (in_dec Nat.eq_dec e (map snd w)) as [Hw|Hw].
-      * specialize (IH1 Hw). unfold commit_elem_rel in *. rewrite Hone in IH1.
-        destruct (Nat.eqb_spec e x); subst; [|exact IH1].
-        destruct IH1 as (i1 & i2 & i3 & i4 & i5 & i6 & i7).
-        destruct bad; simpl in *; repeat split; congruence.
-      * rewrite (IH2 Hw). rewrite Hone. destruct Hin as [Hin|Hin]; [subst|tauto].
-        rewrite Nat.eqb_refl. unfold commit_elem_rel. destruct bad; simpl; intuition.
-    + intros Hn. rewrite IH2 by tauto. rewrite Hone.
-      destruct (Nat.eqb_spec e x); subst; [tauto|auto].
+  - split; [apply same_shape_refl|]. split; [tauto|auto].
+  - destruct (IH (commit_one safe bad st (n, x)) e) as (IH0 & IH1 & IH2).
+    destruct (commit_one_elems safe bad st n x e) as (O0 & O1 & O2).
+    split; [eapply same_shape_trans; eauto|]. split.
+    + intros Hin. destruct (in_dec Nat.eq_dec e (map snd w)) as [Hw|Hw]; [auto|].
+      destruct (IH2 Hw) as [a b]. destruct Hin as [Hin|Hin]; [|tauto]. destruct (O1 (eq_sym Hin)). split; congruence.
+    + intros Hn. assert (Hw : ~ In e (map snd w)) by tauto. assert (Hx : e <> x) by (intros ->; tauto).
+      destruct (IH2 Hw) as [a b]. destruct (O2 Hx) as [c d]. split; congruence.
 Qed.
 
-Lemma commit_all_map_sub : forall bad w st n e,
-  lookup n (mmap (commit_all bad st w)) = Some e -> lookup n (mmap st) = Some e.
+Lemma commit_all_map_sub : forall safe bad w st n e,
+  lookup n (mmap (commit_all safe bad st w)) = Some e -> lookup n (mmap st) = Some e.
 Proof.
   unfold commit_all. induction w as [|[k x] w IH]; simpl; intros st n e H; auto.
-  apply IH in H. unfold commit_one in H. destruct bad; simpl in H; auto.
-  now apply lookup_remove_some in H.
+  apply IH in H. unfold commit_one in H. destruct bad, safe; simpl in H; auto.
+  - now apply lookup_remove_if in H.
+  - now apply lookup_remove_some in H.
+  - destruct (lookup k (mmap st)) as [cur|] eqn:El; simpl in H; auto.
+    destruct (Nat.eqb cur x); simpl in H; auto. now apply lookup_remove_some in H.
 Qed.
-Lemma commit_all_map_ok : forall w st, mmap (commit_all false st w) = mmap st.
+
+Lemma commit_one_untouched : forall safe bad st n x e,
+  e <> x -> (forall k, lookup k (mmap st) <> Some e) -> elems (commit_one safe bad st (n, x)) e = elems st e.
 Proof.
-  unfold commit_all. induction w as [|[k x] w IH]; simpl; intros st; auto. now rewrite IH.
+  intros safe bad st n x e Hx Hr. unfold commit_one.
+  destruct bad; [|destruct safe; [destruct (lookup n (mmap st)) as [cur|] eqn:El; [destruct (Nat.eqb_spec cur x)|]|]].
+  all: simpl; unfold upd.
+  all: repeat match goal with |- context [Nat.eqb ?a ?b] => destruct (Nat.eqb_spec a b); subst end.
+  all: auto; try congruence.
+  all: exfalso; eapply Hr; eauto.
 Qed.
-Lemma commit_all_map_bad : forall w st n,
-  lookup n (mmap (commit_all true st w)) = if has_key n w then None else lookup n (mmap st).
+Lemma commit_all_untouched : forall safe bad w st e,
+  ~ In e (map snd w) -> (forall k, lookup k (mmap st) <> Some e) ->
+  elems (commit_all safe bad st w) e = elems st e.
 Proof.
-  unfold commit_all. induction w as [|[k x] w IH]; simpl; intros st n; auto.
-  rewrite IH. simpl. rewrite lookup_remove_key. unfold has_key. simpl.
-  destruct (Nat.eqb_spec k n); subst.
-  - now destruct (lookup n w).
-  - reflexivity.
-Qed.
-Lemma commit_all_committed_bad : forall w st, committed (commit_all true st w) = committed st.
-Proof.
-  unfold commit_all. induction w as [|[k x] w IH]; simpl; intros st; auto. now rewrite IH.
+  unfold commit_all. induction w as [|[n x] w IH]; simpl; intros st e Hn Hr; auto.
+  rewrite IH.
+  - apply commit_one_untouched; auto.
+  - tauto.
+  - intros k Hk. apply (Hr k). change (commit_one safe bad st (n, x)) with (commit_all safe bad st [(n, x)]) in Hk.
+    eapply commit_all_map_sub; eauto.
 Qed.
 
 (* ------------------------------------------------------------------ *)
@@ -229,11 +259,12 @@ Record Inv0 (st : state) : Prop := {
   i_a1 : forall n e, lookup n (mmap st) = Some e ->
            e < nexte st /\ e_name (elems st e) = n /\ e_owner (elems st e) = None;
   i_a2 : forall t e, plock_ref (ph (txs st t)) = Some e ->
-           e < nexte st /\ e_owner (elems st e) = None /\
+           e < nexte st /\ (e_owner (elems st e) = None \/ e_owner (elems st e) = Some t) /\
            exists w, wctx_of (ph (txs st t)) = Some w /\ e_name (elems st e) = w_n w;
   i_a3 : forall t w c, use_of (ph (txs st t)) = Some (w, c) ->
            c_e c < nexte st /\ e_name (elems st (c_e c)) = w_n w /\
-           e_owner (elems st (c_e c)) = (if c_sh c then None else Some t);
+           (e_owner (elems st (c_e c)) = None \/ e_owner (elems st (c_e c)) = Some t) /\
+           (c_sh c = false -> e_owner (elems st (c_e c)) = Some t);
   i_a4 : forall t n e, lookup n (written (txs st t)) = Some e ->
            e < nexte st /\ e_name (elems st e) = n /\
            (e_owner (elems st e) = None \/ e_owner (elems st e) = Some t);
@@ -303,20 +334,33 @@ Ltac sat_lookups I :=
              end
          end.
 
+Ltac sat_written I :=
+  repeat match goal with
+         | H : lookup ?n (written (txs ?st ?t)) = Some ?e |- _ =>
+             lazymatch goal with
+             | _ : e_name (elems st e) = n |- _ => fail
+             | _ => let F := fresh "Fa4" in pose proof (i_a4 _ I _ _ _ H) as F; destruct F as (? & ? & ?)
+             end
+         end.
+
 Ltac dall :=
   repeat match goal with
          | H : _ /\ _ |- _ => destruct H
          | H : exists _, _ |- _ => destruct H
          | H : Some _ = Some _ |- _ => injection H as H; try subst
          end.
-Lemma commit_view : forall st t bad, Inv0 st ->
+Lemma commit_view : forall st t safe bad, Inv0 st ->
   let W := written (txs st t) in
-  let st1 := commit_all bad st W in
-  (forall e, (exists n, lookup n W = Some e) -> commit_elem_rel bad true (elems st e) (elems st1 e)) /\
-  (forall e, (forall n, lookup n W <> Some e) -> elems st1 e = elems st e) /\
+  let st1 := commit_all safe bad st W in
+  (forall e, same_shape (elems st e) (elems st1 e)) /\
+  (forall e, (exists n, lookup n W = Some e) ->
+             e_writer (elems st1 e) = None /\ e_wheld (elems st1 e) = false) /\
+  (forall e, (forall n, lookup n W <> Some e) ->
+             e_writer (elems st1 e) = e_writer (elems st e) /\ e_wheld (elems st1 e) = e_wheld (elems st e)) /\
   (forall e, (exists n, lookup n W = Some e) \/ (forall n, lookup n W <> Some e)).
 Proof.
-  intros st t bad I W st1. split; [|split]; intros e.
+  intros st t safe bad I W st1. split; [|split; [|split]]; intros e.
+  - apply commit_all_elems.
   - intros [n He]. apply commit_all_elems. eapply lookup_In_snd; eauto.
   - intros He. apply commit_all_elems. intros Hin. apply In_snd_lookup in Hin; [|apply (i_nd _ I)].
     destruct Hin as [n Hn]. eapply He; eauto.
@@ -325,27 +369,30 @@ Proof.
     + right. intros n Hn. apply Hin. eapply lookup_In_snd; eauto.
 Qed.
 
-Lemma commit_Inv0 : forall st t bad, Inv0 st -> ph (txs st t) = PIdle -> done (txs st t) = false ->
-  Inv0 (set_tx (commit_all bad st (written (txs st t))) t (tx_commit (txs st t))).
+Lemma commit_Inv0 : forall st t safe bad, Inv0 st -> ph (txs st t) = PIdle -> done (txs st t) = false ->
+  Inv0 (set_tx (commit_all safe bad st (written (txs st t))) t (tx_commit (txs st t))).
 Proof.
-  intros st t bad I Hph Hdone.
-  destruct (commit_view st t bad I) as (V1 & V2 & Dec).
-  destruct (commit_all_frame bad (written (txs st t)) st) as (Fn & Fm & Fc & Ft).
-  set (W := written (txs st t)) in *. set (st1 := commit_all bad st W) in *.
+  intros st t safe bad I Hph Hdone.
+  destruct (commit_view st t safe bad I) as (V0 & V1 & V2 & Dec).
+  destruct (commit_all_frame safe bad (written (txs st t)) st) as (Fn & Fm & Fc & Ft).
+  set (W := written (txs st t)) in *. set (st1 := commit_all safe bad st W) in *.
   assert (Hs : forall e, e_name (elems st1 e) = e_name (elems st e) /\ e_owner (elems st1 e) = e_owner (elems st e) /\
                          e_readers (elems st1 e) = e_readers (elems st e)).
-  { intros e. destruct (Dec e) as [D|D]; [destruct (V1 e D) as (a & b & c & _); auto|rewrite (V2 e D); auto]. }
+  { intros e. destruct (V0 e) as (a & b & c & _); auto. }
   assert (Hmine : forall e, (exists n, lookup n W = Some e) ->
             e_writer (elems st e) = Some t /\ e_wheld (elems st e) = true /\
             e_writer (elems st1 e) = None /\ e_wheld (elems st1 e) = false).
-  { intros e [n D]. destruct (i_c4 _ I t n e D Hdone). destruct (V1 e (ex_intro _ n D)) as (_ & _ & _ & _ & a & b & _). auto. }
+  { intros e [n D]. destruct (i_c4 _ I t n e D Hdone). destruct (V1 e (ex_intro _ n D)). auto. }
   assert (Hph' : forall t', ph (txs (set_tx st1 t (tx_commit (txs st t))) t') = ph (txs st t')).
   { intros t'. simpl. rewrite Ft. unfold upd. destruct (Nat.eqb_spec t' t); subst; simpl; auto. }
   assert (Hwr' : forall t', written (txs (set_tx st1 t (tx_commit (txs st t))) t') = written (txs st t')).
   { intros t'. simpl. rewrite Ft. unfold upd. destruct (Nat.eqb_spec t' t); subst; simpl; auto. }
   constructor; intros; try rewrite Hph' in *; try rewrite Hwr' in *; simpl elems in *; simpl nexte in *; simpl mmap in *; simpl mlock in *;
     rewrite ?Fn, ?Fm in *.
-  - destruct (Dec e) as [[n D]|D]; [destruct (i_a4 _ I t n e D); lia|rewrite V2; auto; apply (i_a0 _ I); auto].
+  - (* a0 *) unfold st1. rewrite commit_all_untouched; [apply (i_a0 _ I); auto| |].
+    + intros Hin. apply In_snd_lookup in Hin; [|apply (i_nd _ I)]. destruct Hin as [n D].
+      destruct (i_a4 _ I t n e D). lia.
+    + intros k Hk. destruct (i_a1 _ I _ _ Hk). lia.
   - apply commit_all_map_sub in H. destruct (Hs e) as (a & b & c). rewrite a, b. apply (i_a1 _ I); auto.
   - destruct (Hs e) as (a & b & c). rewrite a, b. apply (i_a2 _ I); auto.
   - destruct (Hs (c_e c)) as (a & b & d). rewrite a, b. apply (i_a3 _ I); auto.
@@ -354,24 +401,24 @@ Proof.
   - destruct (Hs e) as (a & b & c). rewrite b, c. apply (i_b2 _ I); auto.
   - destruct (i_c1 _ I t0 w e H) as (a & b & c). destruct (Dec e) as [D|D].
     + destruct (Hmine e D) as (x & y & _). congruence.
-    + rewrite V2; auto.
+    + destruct (V2 e D) as (x & y). rewrite x, y. auto.
   - destruct (Dec e) as [D|D].
     + destruct (Hmine e D) as (_ & _ & x & _). congruence.
-    + rewrite V2 in *; auto. apply (i_c2 _ I); auto.
-  - destruct (Dec e) as [D|D].
+    + destruct (V2 e D) as (x & y). rewrite x in H. rewrite y in H0. apply (i_c2 _ I); auto.
+  - destruct (Hs e) as (a & b & c). destruct (Dec e) as [D|D].
     + destruct (Hmine e D) as (_ & _ & _ & x). congruence.
-    + rewrite V2 in *; auto. apply (i_c3 _ I); auto.
+    + destruct (V2 e D) as (x & y). rewrite y in H. rewrite c, x. apply (i_c3 _ I); auto.
   - assert (t0 <> t). { intros ->. simpl in H0. rewrite Ft in H0. unfold upd in H0. rewrite Nat.eqb_refl in H0. simpl in H0. discriminate. }
     assert (Hd : done (txs st t0) = false). { simpl in H0. rewrite Ft in H0. unfold upd in H0. destruct (Nat.eqb_spec t0 t); [congruence|auto]. }
     destruct (i_c4 _ I t0 n e H Hd) as (a & b). destruct (Dec e) as [D|D].
     + destruct (Hmine e D) as (x & _). congruence.
-    + rewrite V2; auto.
-  - destruct (Dec e) as [D|D].
+    + destruct (V2 e D) as (x & y). rewrite x, y. auto.
+  - destruct (Hs e) as (a & b & c). destruct (Dec e) as [D|D].
     + destruct (Hmine e D) as (_ & _ & x & _). congruence.
-    + rewrite V2 in *; auto. apply (i_c5 _ I); auto.
+    + destruct (V2 e D) as (x & y). rewrite x in H. rewrite y in H0. rewrite a. apply (i_c5 _ I); auto.
   - destruct (Hs e) as (a & b & c). rewrite b in H. destruct (Dec e) as [D|D].
     + destruct (Hmine e D) as (_ & _ & x & _). auto.
-    + rewrite V2; auto. apply (i_d1 _ I); auto.
+    + destruct (V2 e D) as (x & y). rewrite x. apply (i_d1 _ I); auto.
   - apply (i_m1 _ I); auto.
   - apply (i_m2 _ I t0 w); auto.
   - simpl. rewrite Ft. unfold upd. destruct (Nat.eqb_spec t0 t); subst; [congruence|]. apply (i_p1 _ I); auto.
@@ -390,43 +437,48 @@ Arguments remove_tid : simpl never.
 
 Ltac step_field I H :=
   break_step H;
+  repeat match goal with
+         | Hc : (if ?c then _ else None) = Some _ |- _ =>
+             let Ec := fresh "Ec" in destruct c eqn:Ec; [|discriminate Hc]
+         end;
   try match goal with E3 : written (txs ?st ?t) = _ :: _ |- _ => rewrite <- E3 end;
-  match goal with E : ph (txs _ ?t) = _ |- _ => inst_phase I t E end; sat_lookups I; dall.
+  match goal with E : ph (txs _ ?t) = _ |- _ => inst_phase I t E end; sat_lookups I; sat_written I; dall.
 Ltac commit_case I fld :=
   match goal with
-  | E : ph (txs ?st ?t) = PIdle, D : done (txs ?st ?t) = false |- context [commit_all ?bad ?st _] =>
-      apply (fld _ (commit_Inv0 st t bad I E D))
+  | E : ph (txs ?st ?t) = PIdle, D : done (txs ?st ?t) = false |- context [commit_all _ ?bad ?st _] =>
+      apply (fld _ (commit_Inv0 st t _ bad I E D))
   end.
 Ltac map_hyp Hl :=
   try rewrite lookup_set_key in Hl;
   try (apply lookup_remove_some in Hl; destruct Hl as [Hl ?]);
+  try (apply lookup_remove_if in Hl);
   try (apply lookup_prune_map in Hl).
 
-Lemma step_a0 : forall fixed limit st t st', Inv0 st -> step fixed limit st t = Some st' ->
+Lemma step_a0 : forall fixed safe limit st t st', Inv0 st -> step fixed safe limit st t = Some st' ->
   forall e, nexte st' <= e -> elems st' e = noelem.
 Proof.
-  intros fixed limit st t st' I H. step_field I H.
+  intros fixed safe limit st t st' I H. step_field I H.
   all: try (commit_case I i_a0).
   all: simpl; intros; upd_cases; try (apply (i_a0 _ I); simpl in *; lia); try (simpl in *; lia).
 Qed.
 
-Lemma step_a1 : forall fixed limit st t st', Inv0 st -> step fixed limit st t = Some st' ->
+Lemma step_a1 : forall fixed safe limit st t st', Inv0 st -> step fixed safe limit st t = Some st' ->
   forall n e, lookup n (mmap st') = Some e ->
            e < nexte st' /\ e_name (elems st' e) = n /\ e_owner (elems st' e) = None.
 Proof.
-  intros fixed limit st t st' I H. step_field I H.
+  intros fixed safe limit st t st' I H. step_field I H.
   all: try (commit_case I i_a1).
   all: simpl; intros n' e' Hl; map_hyp Hl.
   all: try match type of Hl with (if ?b then _ else _) = _ => destruct b eqn:Eb; [apply Nat.eqb_eq in Eb; inversion Hl; subst|] end.
   all: try (destruct (i_a1 _ I _ _ Hl) as (? & ? & ?)); upd_cases; simpl; auto; try lia.
 Qed.
 
-Lemma step_a2 : forall fixed limit st t st', Inv0 st -> step fixed limit st t = Some st' ->
+Lemma step_a2 : forall fixed safe limit st t st', Inv0 st -> step fixed safe limit st t = Some st' ->
   forall t' e, plock_ref (ph (txs st' t')) = Some e ->
-           e < nexte st' /\ e_owner (elems st' e) = None /\
+           e < nexte st' /\ (e_owner (elems st' e) = None \/ e_owner (elems st' e) = Some t') /\
            exists w, wctx_of (ph (txs st' t')) = Some w /\ e_name (elems st' e) = w_n w.
 Proof.
-  intros fixed limit st t st' I H. step_field I H.
+  intros fixed safe limit st t st' I H. step_field I H.
   all: try (commit_case I i_a2).
   all: simpl; intros t' e' Hp; upd_cases; simpl in Hp; try discriminate Hp.
   all: try (destruct (i_a2 _ I _ _ Hp) as (A & B & w' & C & D)).
@@ -434,25 +486,27 @@ Proof.
   all: simpl; upd_cases; simpl; try lia; repeat split; eauto; try lia.
 Qed.
 
-Lemma step_a3 : forall fixed limit st t st', Inv0 st -> step fixed limit st t = Some st' ->
+Lemma step_a3 : forall fixed safe limit st t st', Inv0 st -> step fixed safe limit st t = Some st' ->
   forall t' w c, use_of (ph (txs st' t')) = Some (w, c) ->
            c_e c < nexte st' /\ e_name (elems st' (c_e c)) = w_n w /\
-           e_owner (elems st' (c_e c)) = (if c_sh c then None else Some t').
+           (e_owner (elems st' (c_e c)) = None \/ e_owner (elems st' (c_e c)) = Some t') /\
+           (c_sh c = false -> e_owner (elems st' (c_e c)) = Some t').
 Proof.
-  intros fixed limit st t st' I H. step_field I H.
+  intros fixed safe limit st t st' I H. step_field I H.
   all: try (commit_case I i_a3).
   all: simpl; intros t' w' c' Hp; upd_cases; simpl in Hp; try discriminate Hp.
-  all: try (destruct (i_a3 _ I _ _ _ Hp) as (A & B & C)).
+  all: try (destruct (i_a3 _ I _ _ _ Hp) as (A & B & C & C')).
   all: try (injection Hp as Hp; subst; simpl in * ).
   all: simpl; upd_cases; simpl; try lia; repeat split; eauto; try lia; try congruence; try (exfalso; lia).
+  all: try (intros Hsh; specialize (C' Hsh); congruence).
 Qed.
 
-Lemma step_a4 : forall fixed limit st t st', Inv0 st -> step fixed limit st t = Some st' ->
+Lemma step_a4 : forall fixed safe limit st t st', Inv0 st -> step fixed safe limit st t = Some st' ->
   forall t' n e, lookup n (written (txs st' t')) = Some e ->
            e < nexte st' /\ e_name (elems st' e) = n /\
            (e_owner (elems st' e) = None \/ e_owner (elems st' e) = Some t').
 Proof.
-  intros fixed limit st t st' I H. step_field I H.
+  intros fixed safe limit st t st' I H. step_field I H.
   all: try (commit_case I i_a4).
   all: simpl; intros t' n' e' Hp; upd_cases; simpl in Hp; map_hyp Hp.
   all: try match type of Hp with (if ?b then _ else _) = _ => destruct b eqn:Eb; [apply Nat.eqb_eq in Eb; inversion Hp; subst|] end.
@@ -460,10 +514,10 @@ Proof.
   all: simpl in *; upd_cases; simpl; try lia; repeat split; eauto; try lia; try congruence; try (exfalso; lia).
 Qed.
 
-Lemma step_b1 : forall fixed limit st t st', Inv0 st -> step fixed limit st t = Some st' ->
+Lemma step_b1 : forall fixed safe limit st t st', Inv0 st -> step fixed safe limit st t = Some st' ->
   forall e t', In t' (e_readers (elems st' e)) -> rl_of (ph (txs st' t')) = Some e.
 Proof.
-  intros fixed limit st t st' I H. step_field I H.
+  intros fixed safe limit st t st' I H. step_field I H.
   all: try (commit_case I i_b1).
   all: simpl; intros e' t' Hp; upd_cases; simpl in Hp; try (apply In_remove_tid in Hp; destruct Hp as [Hp ?]).
   all: try match type of Hp with _ \/ _ => destruct Hp as [Hp|Hp]; [try congruence|] end.
@@ -472,12 +526,12 @@ Proof.
   all: simpl in *; upd_cases; simpl; eauto; try congruence; try tauto; try (exfalso; lia).
 Qed.
 
-Lemma step_b2 : forall fixed limit st t st', Inv0 st -> step fixed limit st t = Some st' ->
+Lemma step_b2 : forall fixed safe limit st t st', Inv0 st -> step fixed safe limit st t = Some st' ->
   forall t' e, rl_of (ph (txs st' t')) = Some e ->
            In t' (e_readers (elems st' e)) /\ e < nexte st' /\
            (e_owner (elems st' e) = None \/ e_owner (elems st' e) = Some t').
 Proof.
-  intros fixed limit st t st' I H. step_field I H.
+  intros fixed safe limit st t st' I H. step_field I H.
   all: try (commit_case I i_b2).
   all: simpl; intros t' e' Hp; upd_cases; simpl in Hp; try discriminate Hp.
   all: try (destruct (i_b2 _ I _ _ Hp) as (A & B & C)).
@@ -486,11 +540,11 @@ Proof.
   all: simpl in *; upd_cases; simpl; try rewrite In_remove_tid; try lia; repeat split; eauto; try lia; try congruence; try tauto; try (exfalso; lia).
 Qed.
 
-Lemma step_c1 : forall fixed limit st t st', Inv0 st -> step fixed limit st t = Some st' ->
+Lemma step_c1 : forall fixed safe limit st t st', Inv0 st -> step fixed safe limit st t = Some st' ->
   forall t' w e, ph (txs st' t') = PWait w e ->
            e_writer (elems st' e) = Some t' /\ e_wheld (elems st' e) = false /\ w_ro w = false.
 Proof.
-  intros fixed limit st t st' I H. step_field I H.
+  intros fixed safe limit st t st' I H. step_field I H.
   all: try (commit_case I i_c1).
   all: simpl; intros t' w' e' Hp; upd_cases; simpl in Hp; try discriminate Hp.
   all: try (destruct (i_c1 _ I _ _ _ Hp) as (A & B & C)).
@@ -499,11 +553,11 @@ Proof.
   all: simpl in *; upd_cases; simpl; repeat split; eauto; try congruence; try tauto; try (exfalso; lia).
 Qed.
 
-Lemma step_c2 : forall fixed limit st t st', Inv0 st -> step fixed limit st t = Some st' ->
+Lemma step_c2 : forall fixed safe limit st t st', Inv0 st -> step fixed safe limit st t = Some st' ->
   forall e t', e_writer (elems st' e) = Some t' -> e_wheld (elems st' e) = false ->
            exists w, ph (txs st' t') = PWait w e.
 Proof.
-  intros fixed limit st t st' I H. step_field I H.
+  intros fixed safe limit st t st' I H. step_field I H.
   all: try (commit_case I i_c2).
   all: simpl; intros e' t' Hp Hq; upd_cases; simpl in Hp, Hq; try discriminate.
   all: try (destruct (i_c2 _ I _ _ Hp Hq) as (w' & A)).
@@ -512,22 +566,22 @@ Proof.
   all: simpl in *; upd_cases; simpl; eauto; try congruence; try tauto; try (exfalso; lia).
 Qed.
 
-Lemma step_c3 : forall fixed limit st t st', Inv0 st -> step fixed limit st t = Some st' ->
+Lemma step_c3 : forall fixed safe limit st t st', Inv0 st -> step fixed safe limit st t = Some st' ->
   forall e, e_wheld (elems st' e) = true ->
            e_readers (elems st' e) = [] /\ e_writer (elems st' e) <> None.
 Proof.
-  intros fixed limit st t st' I H. step_field I H.
+  intros fixed safe limit st t st' I H. step_field I H.
   all: try (commit_case I i_c3).
   all: simpl; intros e' Hp; upd_cases; simpl in Hp; try discriminate.
   all: try (destruct (i_c3 _ I _ Hp) as (A & B)).
   all: simpl in *; upd_cases; simpl; try split; eauto; try congruence; try tauto; try (exfalso; lia); try (rewrite A; reflexivity).
 Qed.
 
-Lemma step_c4 : forall fixed limit st t st', Inv0 st -> step fixed limit st t = Some st' ->
+Lemma step_c4 : forall fixed safe limit st t st', Inv0 st -> step fixed safe limit st t = Some st' ->
   forall t' n e, lookup n (written (txs st' t')) = Some e -> done (txs st' t') = false ->
            e_writer (elems st' e) = Some t' /\ e_wheld (elems st' e) = true.
 Proof.
-  intros fixed limit st t st' I H. step_field I H.
+  intros fixed safe limit st t st' I H. step_field I H.
   all: try (commit_case I i_c4).
   all: simpl; intros t' n' e' Hp Hq; upd_cases; simpl in Hp, Hq; map_hyp Hp.
   all: try match type of Hp with (if ?b then _ else _) = _ => destruct b eqn:Eb; [apply Nat.eqb_eq in Eb; inversion Hp; subst|] end.
@@ -536,11 +590,11 @@ Proof.
   all: simpl in *; upd_cases; simpl; try split; eauto; try congruence; try tauto; try (exfalso; lia).
 Qed.
 
-Lemma step_c5 : forall fixed limit st t st', Inv0 st -> step fixed limit st t = Some st' ->
+Lemma step_c5 : forall fixed safe limit st t st', Inv0 st -> step fixed safe limit st t = Some st' ->
   forall e t', e_writer (elems st' e) = Some t' -> e_wheld (elems st' e) = true ->
            has_key (e_name (elems st' e)) (written (txs st' t')) = true.
 Proof.
-  intros fixed limit st t st' I H. step_field I H.
+  intros fixed safe limit st t st' I H. step_field I H.
   all: try (commit_case I i_c5).
   all: simpl; intros e' t' Hp Hq; upd_cases; simpl in Hp, Hq; try discriminate.
   all: try (pose proof (i_c5 _ I _ _ Hp Hq) as A).
@@ -549,22 +603,23 @@ Proof.
        try match goal with Hn : e_name _ = w_n _ |- _ => rewrite Hn, Nat.eqb_refl; reflexivity end.
 Qed.
 
-Lemma step_d1 : forall fixed limit st t st', Inv0 st -> step fixed limit st t = Some st' ->
+Lemma step_d1 : forall fixed safe limit st t st', Inv0 st -> step fixed safe limit st t = Some st' ->
   forall e o, e_owner (elems st' e) = Some o ->
            e_writer (elems st' e) = None \/ e_writer (elems st' e) = Some o.
 Proof.
-  intros fixed limit st t st' I H. step_field I H.
+  intros fixed safe limit st t st' I H. step_field I H.
   all: try (commit_case I i_d1).
   all: simpl; intros e' o Hp; upd_cases; simpl in Hp; try discriminate.
   all: try (pose proof (i_d1 _ I _ _ Hp) as A).
   all: try (injection Hp as Hp; subst; simpl in * ).
   all: simpl in *; upd_cases; simpl; eauto; try congruence; try tauto; try (exfalso; lia).
+  all: try (destruct H0 as [H0|H0]; [congruence|right; congruence]).
 Qed.
 
-Lemma step_m1 : forall fixed limit st t st', Inv0 st -> step fixed limit st t = Some st' ->
+Lemma step_m1 : forall fixed safe limit st t st', Inv0 st -> step fixed safe limit st t = Some st' ->
   forall t', mlock st' = Some t' -> exists w, ph (txs st' t') = PCreate w.
 Proof.
-  intros fixed limit st t st' I H. step_field I H.
+  intros fixed safe limit st t st' I H. step_field I H.
   all: try (commit_case I i_m1).
   all: repeat match goal with Hf : free (mlock _) = true |- _ => apply free_none in Hf end.
   all: simpl; intros t' Hp; upd_cases; simpl in Hp; try discriminate; try congruence.
@@ -573,10 +628,10 @@ Proof.
   all: simpl in *; upd_cases; simpl; eauto; try congruence; try tauto; try (exfalso; lia).
 Qed.
 
-Lemma step_m2 : forall fixed limit st t st', Inv0 st -> step fixed limit st t = Some st' ->
+Lemma step_m2 : forall fixed safe limit st t st', Inv0 st -> step fixed safe limit st t = Some st' ->
   forall t' w, ph (txs st' t') = PCreate w -> mlock st' = Some t'.
 Proof.
-  intros fixed limit st t st' I H. step_field I H.
+  intros fixed safe limit st t st' I H. step_field I H.
   all: try (commit_case I i_m2).
   all: repeat match goal with Hf : free (mlock _) = true |- _ => apply free_none in Hf end.
   all: simpl; intros t' w' Hp; upd_cases; simpl in Hp; try discriminate; try congruence.
@@ -584,10 +639,10 @@ Proof.
   all: simpl in *; upd_cases; simpl; eauto; try congruence; try tauto; try (exfalso; lia).
 Qed.
 
-Lemma step_p1 : forall fixed limit st t st', Inv0 st -> step fixed limit st t = Some st' ->
+Lemma step_p1 : forall fixed safe limit st t st', Inv0 st -> step fixed safe limit st t = Some st' ->
   forall t', ph (txs st' t') <> PIdle -> prog (txs st' t') <> [].
 Proof.
-  intros fixed limit st t st' I H. step_field I H.
+  intros fixed safe limit st t st' I H. step_field I H.
   all: try (commit_case I i_p1).
   all: simpl; intros t' Hp; upd_cases; simpl in *; try congruence.
   all: try (apply (i_p1 _ I); auto).
@@ -595,10 +650,10 @@ Proof.
   all: try (rewrite E0; discriminate).
 Qed.
 
-Lemma step_e1 : forall fixed limit st t st', Inv0 st -> step fixed limit st t = Some st' ->
+Lemma step_e1 : forall fixed safe limit st t st', Inv0 st -> step fixed safe limit st t = Some st' ->
   forall t' w c, use_of (ph (txs st' t')) = Some (w, c) -> w_ro w = false -> c_rl c = None.
 Proof.
-  intros fixed limit st t st' I H. step_field I H.
+  intros fixed safe limit st t st' I H. step_field I H.
   all: try (commit_case I i_e1).
   all: simpl; intros t' w' c' Hp Hq; upd_cases; simpl in Hp; try discriminate.
   all: try (pose proof (i_e1 _ I _ _ _ Hp Hq) as A).
@@ -606,24 +661,26 @@ Proof.
   all: simpl in *; eauto; try congruence; try tauto.
 Qed.
 
-Lemma step_e2 : forall fixed limit st t st', Inv0 st -> step fixed limit st t = Some st' ->
+Lemma step_e2 : forall fixed safe limit st t st', Inv0 st -> step fixed safe limit st t = Some st' ->
   forall t' w e rl, ph (txs st' t') = PScrap w e rl ->
            (w_ro w = false -> rl = None) /\
            (rl = Some e \/ (rl = None /\ has_key (w_n w) (written (txs st' t')) = true)).
 Proof.
-  intros fixed limit st t st' I H. step_field I H.
+  intros fixed safe limit st t st' I H. step_field I H.
   all: try (commit_case I i_e2).
   all: simpl; intros t' w' e' rl' Hp; upd_cases; simpl in Hp; try discriminate.
   all: try (destruct (i_e2 _ I _ _ _ _ Hp) as (A & B)).
   all: try (injection Hp as Hp; subst; simpl in * ).
   all: simpl in *; try rewrite has_key_set_key; try rewrite Nat.eqb_refl; try split; eauto; try congruence; try tauto.
+  all: try (right; split; [reflexivity|]; unfold has_key; rewrite E3; reflexivity).
+  all: try (right; split; [reflexivity|]; match goal with Hk : negb _ && has_key _ _ = true |- _ => apply andb_true_iff in Hk; apply Hk end).
 Qed.
 
-Lemma step_j0 : forall fixed limit st t st', Inv0 st -> step fixed limit st t = Some st' ->
+Lemma step_j0 : forall fixed safe limit st t st', Inv0 st -> step fixed safe limit st t = Some st' ->
   forall t' w c, use_of (ph (txs st' t')) = Some (w, c) -> c_sh c = true ->
            c_rl c = Some (c_e c) \/ has_key (w_n w) (written (txs st' t')) = true.
 Proof.
-  intros fixed limit st t st' I H. step_field I H.
+  intros fixed safe limit st t st' I H. step_field I H.
   all: try (commit_case I i_j0).
   all: simpl; intros t' w' c' Hp Hq; upd_cases; simpl in Hp; try discriminate.
   all: try (pose proof (i_j0 _ I _ _ _ Hp Hq) as A).
@@ -631,18 +688,18 @@ Proof.
   all: simpl in *; try rewrite has_key_set_key; try rewrite Nat.eqb_refl; eauto; try congruence; try tauto.
 Qed.
 
-Lemma step_nd : forall fixed limit st t st', Inv0 st -> step fixed limit st t = Some st' ->
+Lemma step_nd : forall fixed safe limit st t st', Inv0 st -> step fixed safe limit st t = Some st' ->
   forall t', NoDup (map fst (written (txs st' t'))).
 Proof.
-  intros fixed limit st t st' I H. step_field I H.
+  intros fixed safe limit st t st' I H. step_field I H.
   all: try (commit_case I i_nd).
   all: simpl; intros t'; upd_cases; simpl; try apply (i_nd _ I).
   all: match goal with |- NoDup (?k :: map fst (remove_key ?k ?m)) => exact (NoDup_set_key k 0 m (i_nd _ I _)) end.
 Qed.
 
-Lemma step_Inv0 : forall fixed limit st t st', Inv0 st -> step fixed limit st t = Some st' -> Inv0 st'.
+Lemma step_Inv0 : forall fixed safe limit st t st', Inv0 st -> step fixed safe limit st t = Some st' -> Inv0 st'.
 Proof.
-  intros fixed limit st t st' I H. constructor.
+  intros fixed safe limit st t st' I H. constructor.
   - eapply step_a0; eauto.
   - eapply step_a1; eauto.
   - eapply step_a2; eauto.
@@ -671,18 +728,18 @@ Proof.
   intros n' e Hl. apply lookup_remove_some in Hl. destruct Hl as [Hl _]. now apply (i_a1 _ I).
 Qed.
 
-Lemma lstep_Inv0 : forall fixed limit st l st', Inv0 st -> lstep fixed limit st l = Some st' -> Inv0 st'.
+Lemma lstep_Inv0 : forall fixed safe limit st l st', Inv0 st -> lstep fixed safe limit st l = Some st' -> Inv0 st'.
 Proof.
-  intros fixed limit st [t|n] st' I H; simpl in H.
+  intros fixed safe limit st [t|n] st' I H; simpl in H.
   - eapply step_Inv0; eauto.
   - destruct (free (mlock st)); [|discriminate]. injection H as <-. now apply del_Inv0.
 Qed.
-Lemma next_Inv0 : forall fixed limit st l, Inv0 st -> Inv0 (next fixed limit st l).
+Lemma next_Inv0 : forall fixed safe limit st l, Inv0 st -> Inv0 (next fixed safe limit st l).
 Proof.
-  intros fixed limit st l I. unfold next. destruct (lstep fixed limit st l) eqn:E; auto.
+  intros fixed safe limit st l I. unfold next. destruct (lstep fixed safe limit st l) eqn:E; auto.
   eapply lstep_Inv0; eauto.
 Qed.
-Lemma run_Inv0 : forall fixed limit ls st, Inv0 st -> Inv0 (run fixed limit ls st).
+Lemma run_Inv0 : forall fixed safe limit ls st, Inv0 st -> Inv0 (run fixed safe limit ls st).
 Proof. induction ls; simpl; intros st I; auto. apply IHls. now apply next_Inv0. Qed.
 
 Lemma init_tx : forall progs t,
@@ -700,5 +757,5 @@ Proof.
   constructor.
 Qed.
 
-Lemma reachable_Inv0 : forall fixed limit st, reachable fixed limit st -> Inv0 st.
-Proof. intros fixed limit st (progs & ls & ->). apply run_Inv0, init_Inv0. Qed.
+Lemma reachable_Inv0 : forall fixed safe limit st, reachable fixed safe limit st -> Inv0 st.
+Proof. intros fixed safe limit st (progs & ls & ->). apply run_Inv0, init_Inv0. Qed.
